@@ -12,6 +12,11 @@
    The receiver is long-lived: Entity.reload_metadata / MetadataStore.reload (entity.py 200-223,
    mdstore.py 1128-1138) replace the loaded metadata between verifications (a failed reload restores the
    previous set); every verification looks the issuer up in the set loaded at that moment.
+   A message carries a LIST of signed elements (a signed Response around a signed Assertion): sigver.
+   correctly_signed_response verifies the Response when the message is loaded, response.py AuthnResponse.
+   parse_assertion / _assertion / decrypt_assertions verify every Assertion (plain or decrypted) on its own;
+   entity.py _parse_response repeats a failed verification once when the configuration does not insist on
+   that signature.  accept_msg = all of them, in that order.
    Signatures are ideal: Section variables with the usual symbolic hypotheses. *)
 From Coq Require Import String List Bool.
 From Verif Require Import Base.Str.
@@ -155,24 +160,61 @@ Section Model.
     q_embedded : list cert;
     q_detached : bool;
     q_m : msg;
-    q_s : sig
+    q_s : sig;
+    (* the receiver's configuration demands a signature on this element (want_response_signed for a Response,
+       want_assertions_signed for an Assertion; requests: always) *)
+    q_insist : bool
   }.
 
   Definition at_md (mdx : metadata) (only : bool) (q : query) : input :=
     Build_input mdx only (q_claimed q) (q_embedded q) (q_detached q) (q_m q) (q_s q).
 
+  (* ---- a message carries a LIST of signed elements, each with a signature of its own: the Response
+     (verified when the message is loaded, sigver.correctly_signed_response) and then the Assertion inside
+     it (response.py AuthnResponse._assertion -> check_signature, for an EncryptedAssertion decrypt_assertions
+     -> check_signature); requests and query strings carry one.  Every signed element goes through the same
+     certificate selection under ITS OWN issuer; the first element that fails ends the processing (the
+     rest is not handed to a verifier).  After the signatures: the Response's Issuer, if there is one, must be
+     the Assertion's (response.py _assertion, "Issuer mismatch").
+     Output: accept/reject of the MESSAGE + per signed element the certificates handed to the verifier. ---- *)
+  Definition mout := (bool * list (list cert))%type.
+
+  (* (the receiver insists on this signature, the signed element).  entity.py _parse_response first runs with
+     the requirement forced on and, when that raises a signature error for an element the configuration does
+     NOT insist on, runs the same step once more with the configured requirement: the failing verification is
+     repeated (same certificates, same outcome) *)
+  Fixpoint accept_parts (xs : list (bool * input)) : bool * list (list cert) :=
+    match xs with
+    | [] => (true, [])
+    | (req, x) :: r => let o := accept x in
+                       if fst o then let '(ok, hs) := accept_parts r in (ok, snd o :: hs)
+                       else (false, (if req then snd o else (snd o ++ snd o)%list) :: map (fun _ => []) r)
+    end.
+
+  Definition issuer_is (e : string) (x : input) : bool :=
+    match claimed x with Some e' => String.eqb e e' | None => false end.
+
+  Definition head_issuer_ok (xs : list input) : bool :=
+    match xs with
+    | [] => true
+    | x :: r => match claimed x with None => true | Some e => forallb (issuer_is e) r end
+    end.
+
+  Definition accept_msg (xs : list (bool * input)) : mout :=
+    let o := accept_parts xs in (fst o && head_issuer_ok (map snd xs), snd o).
+
   Inductive op :=
   | Reload (mdx : metadata)       (* reload_metadata / MetadataStore.reload succeeded *)
   | ReloadFailed                  (* reload raised: the previous set is restored *)
-  | Check (q : query).            (* one signed message is verified *)
+  | Check (qs : list query).      (* one message is verified: its signed elements in the order they are verified *)
 
   (* state = the metadata loaded now; nothing else is remembered between verifications *)
-  Fixpoint run_ops (cur : metadata) (only : bool) (ops : list op) : list (bool * list cert) :=
+  Fixpoint run_ops (cur : metadata) (only : bool) (ops : list op) : list mout :=
     match ops with
     | [] => []
     | Reload m' :: r => run_ops m' only r
     | ReloadFailed :: r => run_ops cur only r
-    | Check q :: r => accept (at_md cur only q) :: run_ops cur only r
+    | Check qs :: r => accept_msg (map (fun q => (q_insist q, at_md cur only q)) qs) :: run_ops cur only r
     end.
 End Model.
 
@@ -205,9 +247,15 @@ Arguments q_embedded {cert msg sig}.
 Arguments q_detached {cert msg sig}.
 Arguments q_m {cert msg sig}.
 Arguments q_s {cert msg sig}.
+Arguments q_insist {cert msg sig}.
 Arguments Build_query {cert msg sig}.
 Arguments at_md {cert msg sig}.
 Arguments Reload {cert msg sig}.
 Arguments ReloadFailed {cert msg sig}.
 Arguments Check {cert msg sig}.
 Arguments run_ops {cert msg sig}.
+Arguments mout : clear implicits.
+Arguments accept_parts {cert msg sig}.
+Arguments issuer_is {cert msg sig}.
+Arguments head_issuer_ok {cert msg sig}.
+Arguments accept_msg {cert msg sig}.
